@@ -79,7 +79,23 @@ def harness(ctx):
     result.cfg = FakeCFG()
     made = []
 
+    class FakeTarget:
+        def __init__(self, module):
+            self.module = module
+            self.symbol_lookup = lambda name: iter([name + "#1", name + "#2"])
+
+    class FakeRefCache:
+        def __init__(self):
+            self.asked = []
+
+        def get_referent(self, sym):
+            self.asked.append(sym)
+
+    refcache = FakeRefCache() if ctx.choose(2, "reference-cache-given") else None
+
     class FakeAssembler:
+        ModuleTarget = FakeTarget
+
         def __init__(self, module, temp_symbol_suffix=None, trivially_unreachable=False, implicit_cfi_procedure=True, **kw):
             made.append(dict(module=module, suffix=temp_symbol_suffix, unreachable=trivially_unreachable, implicit=implicit_cfi_procedure, kw=kw))
 
@@ -94,6 +110,9 @@ def harness(ctx):
     self_._abi = FakeABI()
     self_._leaf_functions = {fn_uuid: leafv} if in_table else {}
     self_._patch_id = 41
+    used = bool(ctx.choose(2, "suffix-42-already-used-in-module"))
+    self_._used_label_suffixes = {42, 43} if used else set()
+    want_id = 44 if used else 42
     self_._module = "MODULE"
     self_._log_patch_error = lambda *a: None
     ctx0 = InsertionContext(module="MODULE", function=func if has_fn else None, block="BLOCK", offset=3)
@@ -101,7 +120,7 @@ def harness(ctx):
     real = RW.Assembler
     RW.Assembler = FakeAssembler
     try:
-        out = RW.RewritingContext._invoke_patch(self_, P(), target, 3, ctx0)
+        out = RW.RewritingContext._invoke_patch(self_, P(), target, 3, ctx0, reference_cache=refcache)
     finally:
         RW.Assembler = real
     pe = [e for e in log if e[0] == "pe"]
@@ -121,7 +140,12 @@ def harness(ctx):
     ctx.cover("assembled")
     P_("invoke/ORDER/prologue-body-epilogue", z3.BoolVal(asm == [("P0", X86Syntax.ATT), ("P1", X86Syntax.INTEL), ("BODY", X86Syntax.INTEL),
                                                                   ("E0", X86Syntax.INTEL), ("E1", X86Syntax.ATT)] and log[-1] == ("finalize",)))
-    P_("invoke/ID/one-increment-and-suffix", z3.BoolVal(self_._patch_id == 42 and len(made) == 1 and made[0]["suffix"] == "_42" and made[0]["module"] == "MODULE"))
+    P_("invoke/ID/fresh-id-and-suffix", z3.BoolVal(self_._patch_id == want_id and len(made) == 1 and made[0]["suffix"] == "_%d" % want_id and isinstance(made[0]["module"], FakeTarget) and made[0]["module"].module == "MODULE"),
+       note="the next patch id whose suffix no symbol of the module uses")
+    # C09: symbols handed to the assembler have been resolved through the reference cache first
+    got_syms = list(made[0]["module"].symbol_lookup("foo"))
+    P_("invoke/CACHE/looked-up-symbols-resolved-through-the-reference-cache",
+       z3.BoolVal(got_syms == ["foo#1", "foo#2"] and (refcache is None or refcache.asked == ["foo#1", "foo#2"])))
     want_extra = last_kind in ("data", "code-with-edges")
     got = out.text_section.blocks
     okt = out is result and got[:len(blocks)] == blocks and (len(got) == len(blocks) + (1 if want_extra else 0))
